@@ -10,6 +10,7 @@ package rockredis
 
 // identity of a stored key (what the engine and the write batch distinguish keys by)
 //@ spec kid(key []byte) int
+//@ spec tkId(table []byte, key []byte) int
 //@ spec be16(b []byte, p int) int = int(b[p])*256 + int(b[p+1])
 //@ spec eqAt(dst []byte, p int, src []byte) bool = (forall i int :: p <= i && i < p+len(src) ==> dst[i] == src[i-p]) && (forall j int :: 0 <= j && j < len(src) ==> dst[p+j] == src[j])
 
@@ -93,7 +94,10 @@ package rockredis
 //@   ensures result1 == nil ==> sameSlice(result0, ek[1:len(ek)])
 
 // ---- hash / set / zset member keys ----
+//@ spec hKid(tk int, f int) int
+//@ spec fId(field []byte) int
 //@ func hEncodeHashKey(table []byte, key []byte, field []byte) []byte
+//@   defines kid(result) == hKid(tkId(table, key), fId(field))
 //@   requires smallTK(table, key)
 //@   ensures isCollKey(result, HashType, table, key, field) && fresh(result)
 //@ func hDecodeHashKey(ek []byte) ([]byte, []byte, []byte, error)
@@ -179,7 +183,6 @@ package rockredis
 // ---- list element keys: [ListType][be16 len(table)][table]':'[be16 len(key)][key][be64 seq] ----
 //@ spec be64(b []byte, p int) int = int(b[p])*72057594037927936 + int(b[p+1])*281474976710656 + int(b[p+2])*1099511627776 + int(b[p+3])*4294967296 + int(b[p+4])*16777216 + int(b[p+5])*65536 + int(b[p+6])*256 + int(b[p+7])
 //@ spec isListKey(b []byte, table []byte, key []byte) bool = len(b) == 14+len(table)+len(key) && b[0] == ListType && be16(b,1) == len(table) && eqAt(b,3,table) && b[3+len(table)] == ':' && be16(b,4+len(table)) == len(key) && eqAt(b,6+len(table),key)
-//@ spec tkId(table []byte, key []byte) int
 //@ spec lKid(tk int, seq int64) int
 //@ func lEncodeListKey(table []byte, key []byte, seq int64) []byte
 //@   defines kid(result) == lKid(tkId(table, key), seq)
@@ -594,10 +597,11 @@ package rockredis
 //@   trusted engine point read
 //@   ensures ghost(misses, r) == old(ghost(misses, r)) + ite(result1 == nil && result0 == nil, 1, 0)
 //@   ensures ghost(hits, r) == old(ghost(hits, r)) + ite(result1 == nil && result0 != nil, 1, 0)
+//@   ensures ghost(readerrs, r) == old(ghost(readerrs, r)) + ite(result1 != nil, 1, 0)
 //@   ensures result1 != nil ==> result0 == nil
 //@   ensures result1 != errTooMuchBatchSize
 //@   ensures result0 != nil ==> fresh(result0)
-//@   modifies ghost(misses, r), ghost(hits, r)
+//@   modifies ghost(misses, r), ghost(hits, r), ghost(readerrs, r)
 //@ func (r *RockDB) ExistNoLock(key []byte) (bool, error)
 //@   trusted engine existence test
 //@   ensures ghost(misses, r) == old(ghost(misses, r)) + ite(result1 == nil && !result0, 1, 0)
@@ -625,6 +629,7 @@ package rockredis
 // the write-preparation read of a collection meta: header present, element keys small enough for the codecs
 //@ func (db *RockDB) prepareHashKeyForWrite(ts int64, key []byte, field []byte) (collVerKeyInfo, error)
 //@   trusted reads the collection meta through the engine (prepareCollKeyForWrite)
+//@   ensures result1 == nil ==> ghost(curtk, db) == tkId(result0.Table, result0.VerKey) && fresh(result0.OldHeader) && (result0.OldHeader.UserData == nil || fresh(result0.OldHeader.UserData))
 //@   ensures result1 == nil ==> result0.OldHeader != nil && (result0.OldHeader.Ver == 0 || result0.OldHeader.Ver == 1) && smallTK(result0.Table, result0.VerKey) && (len(result0.OldHeader.UserData) == 0 || len(result0.OldHeader.UserData) == 8) && storedSize(result0.OldHeader.UserData) >= 0 && storedSize(result0.OldHeader.UserData) < 4611686018427387904
 //@ func (im *IndexMgr) GetTableIndexes(table string) *TableIndexContainer
 //@   trusted secondary index registry lookup
@@ -661,7 +666,8 @@ package rockredis
 //@   ensures result1 != nil ==> ghost(wbputs, wb) == old(ghost(wbputs, wb)) && ghost(wbdels, wb) == old(ghost(wbdels, wb))
 //@   ghostset ghost(sizedelta, db) := delta
 //@   ghostset ghost(newsize, db) := result0
-//@   modifies oldh.UserData, ghost(wbputs, wb), ghost(wbdels, wb), ghost(sizedelta, db), ghost(newsize, db), ghost(wbver, wb)
+//@   ghostset ghost(sizeupds, db) := old(ghost(sizeupds, db)) + 1
+//@   modifies oldh.UserData, ghost(wbputs, wb), ghost(wbdels, wb), ghost(sizedelta, db), ghost(newsize, db), ghost(sizeupds, db), ghost(wbver, wb)
 
 // HMSET: the hash size grows by exactly the number of fields the store did not have; every field is buffered
 // once; the only error that leaves the shared batch untouched is the argument-count limit
@@ -671,7 +677,7 @@ package rockredis
 //@   ensures result == nil && len(args) > 0 ==> ghost(newsize, db) >= ghost(sizedelta, db)
 //@   ensures result == errTooMuchBatchSize || len(args) == 0 ==> ghost(wbputs, db.wb) == old(ghost(wbputs, db.wb)) && ghost(wbdels, db.wb) == old(ghost(wbdels, db.wb)) && ghost(commits, db.rockEng) == old(ghost(commits, db.rockEng))
 //@   ensures len(args) > MAX_BATCH_NUM ==> result == errTooMuchBatchSize
-//@   modifies ghost(wbputs, _), ghost(wbdels, _), ghost(commits, _), ghost(cputs, _), ghost(cdels, _), ghost(misses, db), ghost(hits, db), ghost(sizedelta, db), ghost(newsize, db), ghost(tblcnt, db), alloftype(headerMetaValue), ghost(wbver, _), ghost(cver, _)
+//@   modifies ghost(wbputs, _), ghost(wbdels, _), ghost(commits, _), ghost(cputs, _), ghost(cdels, _), ghost(misses, db), ghost(hits, db), ghost(sizedelta, db), ghost(newsize, db), ghost(tblcnt, db), alloftype(headerMetaValue), ghost(wbver, _), ghost(cver, _), ghost(sizeupds, db), ghost(readerrs, db)
 //@   loop 1
 //@   invariant 0 <= i && i <= len(args) && num == ghost(misses, db) - old(ghost(misses, db)) && num >= 0 && num <= i && err == nil && (value == nil || (fresh(value) && disjoint(value, keyInfo.OldHeader.UserData)))
 //@   invariant (len(keyInfo.OldHeader.UserData) == 0 || len(keyInfo.OldHeader.UserData) == 8) && storedSize(keyInfo.OldHeader.UserData) >= 0 && storedSize(keyInfo.OldHeader.UserData) < 4611686018427387904
@@ -703,7 +709,7 @@ package rockredis
 //@   ensures result1 != nil ==> ghost(wbputs, wb) == old(ghost(wbputs, wb)) && ghost(wbdels, wb) == old(ghost(wbdels, wb))
 //@   ghostset ghost(sizedelta, db) := delta
 //@   ghostset ghost(newsize, db) := result0
-//@   modifies oldh.UserData, ghost(wbputs, wb), ghost(wbdels, wb), ghost(sizedelta, db), ghost(newsize, db), ghost(wbver, wb)
+//@   modifies oldh.UserData, ghost(wbputs, wb), ghost(wbdels, wb), ghost(sizedelta, db), ghost(newsize, db), ghost(wbver, wb), ghost(sizeupds, db)
 
 // SADD: the reply and the size delta are the number of members the store did not have, each buffered once;
 // the batch is cleared on every path
@@ -716,7 +722,7 @@ package rockredis
 //@   ensures result1 == nil ==> ghost(commits, db.rockEng) == old(ghost(commits, db.rockEng)) + 1
 //@   ensures len(args) > MAX_BATCH_NUM ==> result1 == errTooMuchBatchSize && ghost(commits, db.rockEng) == old(ghost(commits, db.rockEng))
 //@   ensures ghost(wbputs, db.wb) == 0 && ghost(wbdels, db.wb) == 0
-//@   modifies ghost(wbputs, _), ghost(wbdels, _), ghost(commits, _), ghost(cputs, _), ghost(cdels, _), ghost(misses, db), ghost(hits, db), ghost(sizedelta, db), ghost(newsize, db), ghost(tblcnt, db), alloftype(headerMetaValue), ghost(wbver, _), ghost(cver, _)
+//@   modifies ghost(wbputs, _), ghost(wbdels, _), ghost(commits, _), ghost(cputs, _), ghost(cdels, _), ghost(misses, db), ghost(hits, db), ghost(sizedelta, db), ghost(newsize, db), ghost(tblcnt, db), alloftype(headerMetaValue), ghost(wbver, _), ghost(cver, _), ghost(sizeupds, db), ghost(readerrs, db)
 //@   loop 1
 //@   invariant 0 <= i && i <= len(args) && num == ghost(misses, db) - old(ghost(misses, db)) && num >= 0 && num <= i && ghost(wbputs, wb) == num && ghost(wbdels, wb) == 0
 //@   invariant (len(oldh.UserData) == 0 || len(oldh.UserData) >= 8) && setSize(oldh.UserData) >= 0 && setSize(oldh.UserData) < 4611686018427387904
@@ -731,7 +737,7 @@ package rockredis
 //@   ensures len(args) == 0 ==> result0 == 0 && result1 == nil && ghost(commits, db.rockEng) == old(ghost(commits, db.rockEng))
 //@   ensures len(args) > MAX_BATCH_NUM ==> result1 == errTooMuchBatchSize && ghost(commits, db.rockEng) == old(ghost(commits, db.rockEng))
 //@   ensures ghost(wbputs, db.wb) == 0 && ghost(wbdels, db.wb) == 0
-//@   modifies ghost(wbputs, _), ghost(wbdels, _), ghost(commits, _), ghost(cputs, _), ghost(cdels, _), ghost(misses, db), ghost(hits, db), ghost(sizedelta, db), ghost(newsize, db), ghost(tblcnt, db), ghost(expdels, _), alloftype(headerMetaValue), ghost(wbver, _), ghost(cver, _)
+//@   modifies ghost(wbputs, _), ghost(wbdels, _), ghost(commits, _), ghost(cputs, _), ghost(cdels, _), ghost(misses, db), ghost(hits, db), ghost(sizedelta, db), ghost(newsize, db), ghost(tblcnt, db), ghost(expdels, _), alloftype(headerMetaValue), ghost(wbver, _), ghost(cver, _), ghost(sizeupds, db), ghost(readerrs, db)
 //@   loop 1
 //@   invariant 0 <= i && i <= len(args) && num == ghost(hits, db) - old(ghost(hits, db)) && num >= 0 && num <= i && ghost(wbdels, wb) == num && ghost(wbputs, wb) == 0
 //@   invariant (len(oldh.UserData) == 0 || len(oldh.UserData) >= 8) && setSize(oldh.UserData) >= 0 && setSize(oldh.UserData) < 4611686018427387904
@@ -743,7 +749,7 @@ package rockredis
 //@   ensures len(args) == 0 ==> result0 == 0 && result1 == nil
 //@   ensures result1 == errTooMuchBatchSize || len(args) == 0 ==> ghost(wbputs, db.wb) == old(ghost(wbputs, db.wb)) && ghost(wbdels, db.wb) == old(ghost(wbdels, db.wb)) && ghost(commits, db.rockEng) == old(ghost(commits, db.rockEng))
 //@   ensures len(args) > MAX_BATCH_NUM ==> result1 == errTooMuchBatchSize
-//@   modifies ghost(wbputs, _), ghost(wbdels, _), ghost(commits, _), ghost(cputs, _), ghost(cdels, _), ghost(misses, db), ghost(hits, db), ghost(sizedelta, db), ghost(newsize, db), ghost(tblcnt, db), ghost(expdels, _), alloftype(headerMetaValue), ghost(wbver, _), ghost(cver, _)
+//@   modifies ghost(wbputs, _), ghost(wbdels, _), ghost(commits, _), ghost(cputs, _), ghost(cdels, _), ghost(misses, db), ghost(hits, db), ghost(sizedelta, db), ghost(newsize, db), ghost(tblcnt, db), ghost(expdels, _), alloftype(headerMetaValue), ghost(wbver, _), ghost(cver, _), ghost(sizeupds, db), ghost(readerrs, db)
 //@   loop 1
 //@   invariant 0 <= i && i <= len(args) && num == ghost(hits, db) - old(ghost(hits, db)) && num >= 0 && num <= i
 //@   invariant (len(oldh.UserData) == 0 || len(oldh.UserData) == 8) && storedSize(oldh.UserData) >= 0 && storedSize(oldh.UserData) < 4611686018427387904
@@ -789,7 +795,7 @@ package rockredis
 //@   ensures result1 == nil && ghost(wbver, wb) == old(ghost(wbver, wb)) ==> result0 == 1
 //@   ensures result1 == nil && result0 == 0 ==> ghost(wbver, wb) != old(ghost(wbver, wb))
 //@   ensures result1 != errTooMuchBatchSize
-//@   modifies ghost(misses, db), ghost(hits, db), ghost(wbputs, wb), ghost(wbdels, wb), ghost(wbver, wb)
+//@   modifies ghost(misses, db), ghost(hits, db), ghost(wbputs, wb), ghost(wbdels, wb), ghost(wbver, wb), ghost(readerrs, db)
 //@ func (db *RockDB) zDelItem(table, rk, member []byte, wb engine.WriteBatch) (int64, error)
 //@   requires db != nil && wb != nil && smallTK(table, rk)
 //@   ensures result1 == nil ==> (result0 == 0 || result0 == 1)
@@ -797,7 +803,7 @@ package rockredis
 //@   ensures result1 == nil && result0 == 1 ==> bst(wb, ghost(wbver, wb), zmKid(table, rk, member)) == 2 && ghost(wbdels, wb) == old(ghost(wbdels, wb)) + 2
 //@   ensures result1 == nil && result0 == 0 ==> ghost(wbver, wb) == old(ghost(wbver, wb)) && ghost(wbdels, wb) == old(ghost(wbdels, wb))
 //@   ensures result1 != errTooMuchBatchSize
-//@   modifies ghost(misses, db), ghost(hits, db), ghost(wbdels, wb), ghost(wbver, wb)
+//@   modifies ghost(misses, db), ghost(hits, db), ghost(wbdels, wb), ghost(wbver, wb), ghost(readerrs, db)
 
 // zset meta: [size be64][modify time be64]
 //@ func parseZMetaSize(meta []byte) (int64, error)
@@ -820,7 +826,7 @@ package rockredis
 //@   ensures result1 != nil ==> ghost(wbputs, wb) == old(ghost(wbputs, wb)) && ghost(wbdels, wb) == old(ghost(wbdels, wb))
 //@   ghostset ghost(sizedelta, db) := delta
 //@   ghostset ghost(newsize, db) := result0
-//@   modifies oldh.UserData, ghost(wbputs, wb), ghost(wbdels, wb), ghost(sizedelta, db), ghost(newsize, db), ghost(wbver, wb)
+//@   modifies oldh.UserData, ghost(wbputs, wb), ghost(wbdels, wb), ghost(sizedelta, db), ghost(newsize, db), ghost(wbver, wb), ghost(sizeupds, db)
 
 // ZADD: reply and size growth are the number of members the store did not have; ZREM: the number it had
 //@ func (db *RockDB) ZAdd(ts int64, key []byte, args ...common.ScorePair) (int64, error)
@@ -832,7 +838,7 @@ package rockredis
 //@   ensures len(args) == 0 ==> result0 == 0 && result1 == nil && ghost(commits, db.rockEng) == old(ghost(commits, db.rockEng))
 //@   ensures len(args) > MAX_BATCH_NUM ==> result1 == errTooMuchBatchSize && ghost(commits, db.rockEng) == old(ghost(commits, db.rockEng))
 //@   ensures ghost(wbputs, db.wb) == 0 && ghost(wbdels, db.wb) == 0
-//@   modifies ghost(wbputs, _), ghost(wbdels, _), ghost(wbver, _), ghost(commits, _), ghost(cputs, _), ghost(cdels, _), ghost(misses, db), ghost(hits, db), ghost(sizedelta, db), ghost(newsize, db), ghost(tblcnt, db), alloftype(headerMetaValue), ghost(cver, _)
+//@   modifies ghost(wbputs, _), ghost(wbdels, _), ghost(wbver, _), ghost(commits, _), ghost(cputs, _), ghost(cdels, _), ghost(misses, db), ghost(hits, db), ghost(sizedelta, db), ghost(newsize, db), ghost(tblcnt, db), alloftype(headerMetaValue), ghost(cver, _), ghost(sizeupds, db), ghost(readerrs, db)
 //@   loop 1
 //@   invariant 0 <= i && i <= len(args) && num == ghost(misses, db) - old(ghost(misses, db)) && num >= 0 && num <= i
 //@   invariant (len(keyInfo.OldHeader.UserData) == 0 || len(keyInfo.OldHeader.UserData) >= 8) && setSize(keyInfo.OldHeader.UserData) >= 0 && setSize(keyInfo.OldHeader.UserData) < 4611686018427387904
@@ -845,7 +851,7 @@ package rockredis
 //@   ensures len(members) == 0 ==> result0 == 0 && result1 == nil && ghost(commits, db.rockEng) == old(ghost(commits, db.rockEng))
 //@   ensures len(members) > MAX_BATCH_NUM ==> result1 == errTooMuchBatchSize && ghost(commits, db.rockEng) == old(ghost(commits, db.rockEng))
 //@   ensures ghost(wbputs, db.wb) == 0 && ghost(wbdels, db.wb) == 0
-//@   modifies ghost(wbputs, _), ghost(wbdels, _), ghost(wbver, _), ghost(commits, _), ghost(cputs, _), ghost(cdels, _), ghost(misses, db), ghost(hits, db), ghost(sizedelta, db), ghost(newsize, db), ghost(tblcnt, db), ghost(expdels, _), alloftype(headerMetaValue), ghost(cver, _)
+//@   modifies ghost(wbputs, _), ghost(wbdels, _), ghost(wbver, _), ghost(commits, _), ghost(cputs, _), ghost(cdels, _), ghost(misses, db), ghost(hits, db), ghost(sizedelta, db), ghost(newsize, db), ghost(tblcnt, db), ghost(expdels, _), alloftype(headerMetaValue), ghost(cver, _), ghost(sizeupds, db), ghost(readerrs, db)
 //@   loop 1
 //@   invariant 0 <= i && i <= len(members) && num == ghost(hits, db) - old(ghost(hits, db)) && num >= 0 && num <= i && ghost(wbdels, wb) == 2 * num && ghost(wbputs, wb) == 0
 //@   invariant (len(keyInfo.OldHeader.UserData) == 0 || len(keyInfo.OldHeader.UserData) >= 8) && setSize(keyInfo.OldHeader.UserData) >= 0 && setSize(keyInfo.OldHeader.UserData) < 4611686018427387904
@@ -871,7 +877,7 @@ package rockredis
 //@   ensures result1 == nil && len(args) > 0 ==> ghost(commits, db.rockEng) == old(ghost(commits, db.rockEng)) + 1 && ghost(cputs, db.rockEng) == len(args) + 1 && ghost(cdels, db.rockEng) == 0
 //@   ensures len(args) == 0 && result1 == nil ==> result0 == ghost(lpsize, db) && ghost(commits, db.rockEng) == old(ghost(commits, db.rockEng))
 //@   ensures ghost(wbputs, db.wb) == 0 && ghost(wbdels, db.wb) == 0
-//@   modifies ghost(wbputs, _), ghost(wbdels, _), ghost(wbver, _), ghost(commits, _), ghost(cputs, _), ghost(cdels, _), ghost(misses, db), ghost(hits, db), ghost(lmhead, db), ghost(lmtail, db), ghost(lmsets, db), ghost(tblcnt, db), alloftype(headerMetaValue), ghost(cver, _)
+//@   modifies ghost(wbputs, _), ghost(wbdels, _), ghost(wbver, _), ghost(commits, _), ghost(cputs, _), ghost(cdels, _), ghost(misses, db), ghost(hits, db), ghost(lmhead, db), ghost(lmtail, db), ghost(lmsets, db), ghost(tblcnt, db), alloftype(headerMetaValue), ghost(cver, _), ghost(readerrs, db)
 //@   loop 1
 //@   invariant 0 <= i && i <= pushCnt && pushCnt == len(args) && ghost(wbputs, wb) == i && ghost(wbdels, wb) == 0 && ghost(lmsets, db) == old(ghost(lmsets, db)) && ghost(commits, db.rockEng) == old(ghost(commits, db.rockEng))
 
@@ -886,7 +892,7 @@ package rockredis
 //@   ensures result1 == nil && result0 == nil ==> ghost(commits, db.rockEng) == old(ghost(commits, db.rockEng))
 //@   ensures ghost(curexists, db) == 0 && 1 <= len(key) && len(key) <= MaxKeySize ==> result0 == nil && ghost(commits, db.rockEng) == old(ghost(commits, db.rockEng))
 //@   ensures ghost(wbputs, db.wb) == 0 && ghost(wbdels, db.wb) == 0
-//@   modifies ghost(wbputs, _), ghost(wbdels, _), ghost(wbver, _), ghost(commits, _), ghost(cputs, _), ghost(cdels, _), ghost(misses, db), ghost(hits, db), ghost(lmhead, db), ghost(lmtail, db), ghost(lmsets, db), ghost(tblcnt, db), ghost(expdels, _), ghost(cver, _)
+//@   modifies ghost(wbputs, _), ghost(wbdels, _), ghost(wbver, _), ghost(commits, _), ghost(cputs, _), ghost(cdels, _), ghost(misses, db), ghost(hits, db), ghost(lmhead, db), ghost(lmtail, db), ghost(lmsets, db), ghost(tblcnt, db), ghost(expdels, _), ghost(cver, _), ghost(readerrs, db)
 
 // the element position a Redis list index denotes: index >= 0 counts from the head, index < 0 from the tail
 //@ spec lSeq(head int, llen int, index int) int = ite(index >= 0, head + index, head + llen + index)
@@ -990,16 +996,16 @@ package rockredis
 //@   callassert resetWithNewKVValue arg4 == duration && arg1 == ts
 //@   ensures result == nil ==> ghost(kvttlset, db) == ite(duration > 0, duration + ts / 1000000000, 0)
 //@   ensures len(value) > MaxValueSize ==> result != nil && ghost(wbputs, db.wb) == old(ghost(wbputs, db.wb)) && ghost(wbver, db.wb) == old(ghost(wbver, db.wb))
-//@   modifies ghost(wbputs, _), ghost(wbdels, _), ghost(wbver, _), ghost(commits, _), ghost(cputs, _), ghost(cdels, _), ghost(cver, _), ghost(tblcnt, db), ghost(kvttlset, db), ghost(expdels, _), ghost(misses, db), ghost(hits, db)
+//@   modifies ghost(wbputs, _), ghost(wbdels, _), ghost(wbver, _), ghost(commits, _), ghost(cputs, _), ghost(cdels, _), ghost(cver, _), ghost(tblcnt, db), ghost(kvttlset, db), ghost(expdels, _), ghost(misses, db), ghost(hits, db), ghost(readerrs, db)
 //@ func (db *RockDB) KVSet(ts int64, rawKey []byte, value []byte) error
 //@   requires db != nil && db.wb != nil && db.cfg != nil
 //@   ensures result == nil ==> ghost(kvttlset, db) == 0
-//@   modifies ghost(wbputs, _), ghost(wbdels, _), ghost(wbver, _), ghost(commits, _), ghost(cputs, _), ghost(cdels, _), ghost(cver, _), ghost(tblcnt, db), ghost(kvttlset, db), ghost(expdels, _), ghost(misses, db), ghost(hits, db)
+//@   modifies ghost(wbputs, _), ghost(wbdels, _), ghost(wbver, _), ghost(commits, _), ghost(cputs, _), ghost(cdels, _), ghost(cver, _), ghost(tblcnt, db), ghost(kvttlset, db), ghost(expdels, _), ghost(misses, db), ghost(hits, db), ghost(readerrs, db)
 //@ func (db *RockDB) SetEx(ts int64, rawKey []byte, duration int64, value []byte) error
 //@   requires db != nil && db.wb != nil && db.cfg != nil
 //@   ensures duration <= 0 ==> result != nil && ghost(wbver, db.wb) == old(ghost(wbver, db.wb))
 //@   ensures result == nil ==> duration > 0 && ghost(kvttlset, db) == duration + ts / 1000000000
-//@   modifies ghost(wbputs, _), ghost(wbdels, _), ghost(wbver, _), ghost(commits, _), ghost(cputs, _), ghost(cdels, _), ghost(cver, _), ghost(tblcnt, db), ghost(kvttlset, db), ghost(expdels, _), ghost(misses, db), ghost(hits, db)
+//@   modifies ghost(wbputs, _), ghost(wbdels, _), ghost(wbver, _), ghost(commits, _), ghost(cputs, _), ghost(cdels, _), ghost(cver, _), ghost(tblcnt, db), ghost(kvttlset, db), ghost(expdels, _), ghost(misses, db), ghost(hits, db), ghost(readerrs, db)
 
 // INCR / INCRBY: the reply is the live old number (0 for an absent or expired key) plus delta
 //@ spec numOf(b []byte) int
@@ -1027,3 +1033,15 @@ package rockredis
 //@   requires db != nil && db.expiration != nil
 //@   ensures result1 == nil ==> ghost(expireat, db.expiration) == ts / 1000000000 + duration
 //@   modifies ghost(expireat, _)
+
+//@ property C08 C09
+// HSET / HSETNX / HINCRBY on one field: the hash size grows by one exactly when the store did not have the field,
+// and then the field is buffered; an existing field never touches the size
+//@ func (db *RockDB) hSetField(ts int64, checkNX bool, hkey []byte, field []byte, value []byte, wb engine.WriteBatch, hindex *HsetIndex) (int64, error)
+//@   requires db != nil && wb != nil && (field == nil || field.arr != value.arr)
+//@   ensures result1 == nil ==> (result0 == 0 || result0 == 1) && ghost(misses, db) + ghost(readerrs, db) == old(ghost(misses, db)) + old(ghost(readerrs, db)) + result0
+//@   ensures result1 == nil && result0 == 1 ==> ghost(sizeupds, db) == old(ghost(sizeupds, db)) + 1 && ghost(sizedelta, db) == 1 && ghost(newsize, db) >= 1
+//@   ensures result1 == nil && result0 == 0 ==> ghost(sizeupds, db) == old(ghost(sizeupds, db))
+//@   ensures result1 == nil && result0 == 1 && hindex == nil ==> bst(wb, ghost(wbver, wb), hKid(ghost(curtk, db), fId(field))) == 1
+//@   ensures result1 == nil && result0 == 0 && checkNX ==> ghost(wbver, wb) == old(ghost(wbver, wb))
+//@   modifies ghost(wbputs, wb), ghost(wbdels, wb), ghost(wbver, wb), ghost(misses, db), ghost(hits, db), ghost(sizedelta, db), ghost(newsize, db), ghost(sizeupds, db), ghost(tblcnt, db), alloftype(headerMetaValue), value[len(value):cap(value)], ghost(readerrs, db)
